@@ -10,7 +10,7 @@ import subprocess
 import sys
 
 ROOT = os.path.dirname(os.path.dirname(os.path.abspath(__file__)))
-SCR = "/var/tmp/seedrun"
+SCR = os.environ.get("SEEDS_SCRATCH", "/var/tmp/seedrun")   # a second concurrent run needs its own
 
 
 def run(name):
@@ -52,8 +52,9 @@ def main():
     bad = 0
     with concurrent.futures.ThreadPoolExecutor(jobs) as ex:
         for name, res in ex.map(run, names):
-            with open(os.path.join(ROOT, "seeded", name, "detection.json"), "w") as f:
-                json.dump(res, f, indent=1)
+            if not os.environ.get("SEEDS_NO_RECORD"):   # robustness runs (other VERIF_SEED) only print
+                with open(os.path.join(ROOT, "seeded", name, "detection.json"), "w") as f:
+                    json.dump(res, f, indent=1)
             print(name, res.get("check_exit"), len(res.get("failed_obligations", [])), res.get("error", ""), flush=True)
             obsolete = json.load(open(os.path.join(ROOT, "seeded", name, "meta.json"))).get("status", "").startswith("obsolete")
             bad += (not res.get("detected")) and not obsolete
